@@ -360,6 +360,12 @@ func (c *Conn) HandshakeContext(ctx context.Context) error {
 
 	start, err := c.prepareHandshakeStart(ctx)
 	if err != nil {
+		if ctx.Err() == nil && c.isConnectionClosed() {
+			// Close interrupted the version negotiation by closing the
+			// transport: report that, not the transport's own error.
+			return ErrConnClosed
+		}
+
 		return err
 	}
 
